@@ -126,3 +126,40 @@ Section ImmProofs.
     - exact Hdone.
   Qed.
 End ImmProofs.
+
+(** the model trace the correspondence check compares the implementation with - a strict replay
+    ([preplay_imm]) of the observed schedule on the guarded model, under ANY script (in particular
+    the context-aware script [sc_ctx cl sc] built from the observed context oracle) - passes every
+    monitor that judges the implementation *)
+Section Replayed.
+  Context {M : Type}.
+  Variable hf : nat -> M -> list M.
+  Variable eqbM : M -> M -> bool.
+  Hypothesis eqbM_spec : forall x y, eqbM x y = true <-> x = y.
+
+  Lemma preplay_imm_prun_imm k sc : forall ls st st',
+    preplay_imm hf eqbM rt_handle k sc st ls = Some st' -> prun_imm hf eqbM rt_handle k sc st ls = st'.
+  Proof.
+    induction ls as [|l ls IH]; simpl; intros st st' H; [congruence|].
+    destruct (pstep_imm hf eqbM rt_handle k sc st l); [now apply IH|discriminate].
+  Qed.
+
+  Theorem replayed_model_accepted k sc srcs ls st :
+    preplay_imm hf eqbM rt_handle k sc (pinit srcs) ls = Some st ->
+    log_ok hf eqbM (dlog st) = true
+    /\ sink_sound hf eqbM k srcs (topic st k) = true
+    /\ immediate_ok eqbM (dlog st) = true
+    /\ (quiescentb k st = true -> sink_complete hf eqbM k srcs (topic st k) = true
+                                  /\ redelivery_ok eqbM (dlog st) = true).
+  Proof.
+    intros H. apply preplay_imm_prun_imm in H. subst st.
+    split; [|split; [|split]].
+    - rewrite prun_imm_prun. apply (model_accepted hf eqbM eqbM_spec).
+    - rewrite prun_imm_prun. apply (model_accepted hf eqbM eqbM_spec).
+    - apply (immediate_run hf eqbM eqbM_spec).
+    - rewrite prun_imm_prun. intros Hq.
+      destruct (model_accepted hf eqbM eqbM_spec k sc srcs
+                  (taken_imm hf eqbM rt_handle k sc (pinit srcs) ls)) as (_ & _ & H3 & H4).
+      split; [now apply H3|now apply H4].
+  Qed.
+End Replayed.
